@@ -10,7 +10,8 @@ Model: `TLVerif/Codec/Json.lean` (`writeJson` / `readJson`, tied to the generate
 * The round-trip half of the property **fails on the real code** (and therefore in the model, which follows the code):
   `JsonRoundTrip` is the full-strength statement, `json_roundtrip_fails_at_neg_zero` / `…_nan_payload` are proved
   counter-examples (leads L2, L3 of DESIGN §6); further failures found by the check (dictionary keys that are not
-  valid UTF-8 or need escaping, nil recursive pointers) are recorded in `known_findings.d/C05.json`.
+  valid UTF-8, nil recursive pointers) are recorded in `known_findings.json`; keys that merely need escaping read back
+  unescaped both in the model and — since the repair of F2 in /repo 540af2db — in the code.
   What is proved of the positive direction: the primitive round trips below (`prim_roundtrip_*`: all integers, all strings,
   booleans, the special floats); finite floats (shortest-digit printing / correctly rounded parsing) and the composite
   types are explored by the differential run only (stated as such in the manifest).
